@@ -30,9 +30,6 @@ structure AtomT where
 structure GroupT (α : Type) where
   type : String
   resType : String
-  label : String
-  protein : Bool          -- `group.atom.type == 'atom'` (decides how `Group.__eq__` compares)
-  resNum : Int            -- `group.atom.res_num`, read by `Group.__eq__` for hetero groups
   q : α
   model : α
   titratable : Bool
@@ -61,6 +58,8 @@ structure Env (α : Type) where
   angA : Nat → Nat → Nat → Ang α    -- angle_distance_factors(atom1, atom2, atom3)
   angC : Nat → Nat → Nat → Ang α    -- angle_distance_factors(atom2, atom3, center = centre of group g)
   sameRes : Nat → Nat → Bool        -- atom a has the res_num and chain_id of group g's atom
+  geq : Nat → Nat → Bool            -- `group g == group h` (`Group.__eq__`: printed labels, and residue numbers for hetero groups)
+  sameLabel : Nat → Nat → Bool      -- the printed labels of groups g and h are equal
 
 /-- the parameters scoring reads (cfg values and module constants), look-ups as functions -/
 structure SP (α : Type) where
@@ -125,7 +124,7 @@ variable {α : Type} [Add α] [Sub α] [Mul α] [Div α] [Neg α] [NatCast α] [
 
 def zero : α := ((0:Nat):α)
 
-def GroupT.dflt : GroupT α := ⟨"", "", "", true, 0, zero, zero, false, false, 0, [], [], []⟩
+def GroupT.dflt : GroupT α := ⟨"", "", zero, zero, false, false, 0, [], [], []⟩
 def aget (atoms : Tab AtomT) (i : Nat) : AtomT := atoms.get i
 def gget (groups : Tab (GroupT α)) (i : Nat) : GroupT α := groups.get i
 
@@ -393,9 +392,6 @@ def iterKind : Iter.Kind → Kind
 def totalPka (p : SP α) (g : GroupT α) (evol eloc : α) (sc bb cb : List (Det α)) : α :=
   if g.bridged then p.fixed else dsum (dsum (dsum (g.model + evol + eloc) sc) bb) cb
 
-/-- `Group.__eq__` -/
-def geq (g h : GroupT α) : Bool := g.label == h.label && (g.protein || g.resNum == h.resNum)
-
 /-- `get_a_coupled_system_of_groups`: depth-first over the covalently coupled lists -/
 def collect (groups : Tab (GroupT α)) : Nat → List Nat → Nat → List Nat
   | 0, sys, _ => sys
@@ -418,21 +414,21 @@ def argminPka (pka : Nat → α) : List Nat → Option Nat
   | g :: gs => some (gs.foldl (fun b x => if pka x < pka b then x else b) g)
 
 /-- `coupling_effects` on one system: (group, its `coupled_titrating_group`) for every penalised group -/
-def penalise (groups : Tab (GroupT α)) (pka : Nat → α) (sys : List Nat) : List (Nat × Nat) :=
+def penalise (env : Env α) (groups : Tab (GroupT α)) (pka : Nat → α) (sys : List Nat) : List (Nat × Nat) :=
   match argmaxPka pka sys with
   | none => []
   | some f =>
     if (gget groups f).q < zero then [(f, (argminPka pka sys).getD f)]
-    else (sys.filter fun g => !geq (gget groups g) (gget groups f)).map fun g => (g, f)
+    else (sys.filter fun g => !env.geq g f).map fun g => (g, f)
 
 def covCoupled (groups : Tab (GroupT α)) : List Nat := (List.range groups.n).filter fun i => !(gget groups i).cov.isEmpty
 
-def penalties (groups : Tab (GroupT α)) (pka : Nat → α) : List (Nat × Nat) :=
-  (systems groups groups.n (covCoupled groups)).flatMap (penalise groups pka)
+def penalties (env : Env α) (groups : Tab (GroupT α)) (pka : Nat → α) : List (Nat × Nat) :=
+  (systems groups groups.n (covCoupled groups)).flatMap (penalise env groups pka)
 
-/-- `Group.remove_determinants(labels)` for a titratable group -/
-def removeDets (groups : Tab (GroupT α)) (labels : List String) (ds : List (Det α)) : List (Det α) :=
-  ds.filter fun d => !labels.contains (gget groups d.partner).label
+/-- `Group.remove_determinants(penalised_labels)`: a determinant goes when its label is the label of a penalised group -/
+def removeDets (env : Env α) (pens : List (Nat × Nat)) (ds : List (Det α)) : List (Det α) :=
+  ds.filter fun d => !pens.any fun x => env.sameLabel x.1 d.partner
 
 /-! ### the whole of `calculate_pka` -/
 structure Stage (α : Type) where
@@ -472,15 +468,14 @@ def pkaFirst (p : SP α) (groups : Tab (GroupT α)) (st : Nat → Stage α) (i :
   totalPka p (gget groups i) (st i).evol (st i).eloc (st i).sc (st i).bb (st i).cb
 
 /-- coupling effects, removal of the determinants towards penalised groups, second `calculate_total_pka` -/
-def finish (p : SP α) (groups : Tab (GroupT α)) (st : Nat → Stage α) (pens : List (Nat × Nat)) (g : Nat) : GOut α :=
+def finish (p : SP α) (env : Env α) (groups : Tab (GroupT α)) (st : Nat → Stage α) (pens : List (Nat × Nat)) (g : Nat) : GOut α :=
   let gr := gget groups g
-  let labels := pens.map fun x => (gget groups x.1).label
   let s := st g
   let ctg := (pens.find? fun x => x.1 == g).map (·.2)
   if p.removePenalised && !pens.isEmpty then
-    let sc := if gr.titratable then removeDets groups labels s.sc else s.sc
-    let bb := if gr.titratable then removeDets groups labels s.bb else s.bb
-    let cb := if gr.titratable then removeDets groups labels s.cb else s.cb
+    let sc := if gr.titratable then removeDets env pens s.sc else s.sc
+    let bb := if gr.titratable then removeDets env pens s.bb else s.bb
+    let cb := if gr.titratable then removeDets env pens s.cb else s.cb
     { nv := s.nv, buried := s.buried, evol := s.evol, eloc := s.eloc, sc := sc, bb := bb, cb := cb,
       pka := totalPka p gr s.evol s.eloc sc bb cb, ctg := ctg }
   else
@@ -513,14 +508,14 @@ def stagesTab (p : SP α) (env : Env α) (atoms : Tab AtomT) (groups : Tab (Grou
   stage2Tab p groups (stage1Tab p env atoms groups des rs) rs
 
 /-- `coupling_effects`: (penalised group, its coupled titrating group), from the first totals -/
-def pensOf (p : SP α) (groups : Tab (GroupT α)) (st : Array (Stage α)) : List (Nat × Nat) :=
-  penalties groups (tab ((Array.range groups.n).map (pkaFirst p groups (tab st Stage.dflt))) zero)
+def pensOf (p : SP α) (env : Env α) (groups : Tab (GroupT α)) (st : Array (Stage α)) : List (Nat × Nat) :=
+  penalties env groups (tab ((Array.range groups.n).map (pkaFirst p groups (tab st Stage.dflt))) zero)
 
 /-- `ConformationContainer.calculate_pka`: the record of every group, in the order of `conformation.groups` -/
 def score (p : SP α) (env : Env α) (atoms : Tab AtomT) (groups : Tab (GroupT α)) : List (GOut α) :=
   let st := stagesTab p env atoms groups
-  let pens := pensOf p groups st
-  (List.range groups.n).map (finish p groups (tab st Stage.dflt) pens)
+  let pens := pensOf p env groups st
+  (List.range groups.n).map (finish p env groups (tab st Stage.dflt) pens)
 
 /-! ### the environment built from coordinates, as the code computes it -/
 /-- `squared_distance(a, b)` -/
@@ -532,13 +527,21 @@ def angOf (r : α × α × α) : Ang α := ⟨r.1, r.2.1, r.2.2⟩
 /-- residue key of an atom: (res_num, chain_id) -/
 abbrev ResKey := Int × String
 
-def envOf (apos : Nat → Angle.P3 α) (gpos : Nat → Angle.P3 α) (ares : Nat → ResKey) (gres : Nat → ResKey) : Env α :=
+/-- what identifies a group for `Group.__eq__`: printed label, whether its atom is a protein atom, residue number -/
+structure GroupId where
+  label : String
+  protein : Bool
+  resNum : Int
+
+def envOf (apos : Nat → Angle.P3 α) (gpos : Nat → Angle.P3 α) (ares : Nat → ResKey) (gres : Nat → ResKey) (gid : Nat → GroupId) : Env α :=
   { sqAA := fun i j => sqDist (apos i) (apos j),
     sqGA := fun g a => sqDist (gpos g) (apos a),
     sqGG := fun g h => sqDist (gpos g) (gpos h),
     angA := fun a1 a2 a3 => angOf (Angle.factors (apos a1) (apos a2) (apos a3)),
     angC := fun g a2 a3 => angOf (Angle.factors (gpos g) (apos a2) (apos a3)),
-    sameRes := fun g a => (ares a).1 == (gres g).1 && (ares a).2 == (gres g).2 }
+    sameRes := fun g a => (ares a).1 == (gres g).1 && (ares a).2 == (gres g).2,
+    geq := fun g h => (gid g).label == (gid h).label && ((gid g).protein || (gid g).resNum == (gid h).resNum),
+    sameLabel := fun g h => (gid g).label == (gid h).label }
 end
 
 end Propka.Scoring
